@@ -1115,6 +1115,12 @@ func run(args []string) error {
 		return err
 	}
 	w.Close()
+	// limb-level translation validation of Gen/FieldLimbs.v (fieldlimbs.go); evaluated in Coq by lib/props/c14.py
+	nfl := 30
+	if f.Tier == "thorough" || f.Tier == "search" {
+		nfl = 400
+	}
+	o.Side["fieldlimbs_coq"] = runFieldLimbs(g.r, nfl, o, hist, caseJSON)
 	o.Side["cases"] = caseJSON
 	o.Side["distribution"] = hist.Sorted()
 	o.Side["samples"] = samples
